@@ -220,6 +220,30 @@ def run(ctx):
                               f"skip {Ssp}: split(join(data)) != data or join(split(X)) differs from X on supplied channels", rp)
                 else:
                     cov.hit("join-split-roundtrip")
+                # the supplied arrays need not share a dtype (a one-hot / flag block of ints or bools, a float32 block
+                # next to float64 readings): the values of every supplied channel must come back unchanged
+                if len(data) >= 2 and i % 2 == 0:
+                    dt0 = r.choice([np.float32, np.int64, bool, np.int8])
+                    first = data[0]
+                    as0 = (np.round(first) if dt0 is not np.float32 else first).astype(dt0)
+                    mixed = [as0] + [np.asarray(d_, dtype=np.float64) for d_ in data[1:]]
+                    try:
+                        with quiet():
+                            Jm = f.join_channel_data(mixed, skip_channels=list(Ssp))
+                            bm = f.split_channel_data(Jm, skip_channels=list(Ssp))
+                        okm = len(bm) == len(mixed) and all(
+                            np.array_equal(np.asarray(a, dtype=np.float64), np.asarray(b, dtype=np.float64)) for a, b in zip(bm, mixed))
+                        okm = okm and all(np.all(np.asarray(Jm)[:, off[j]:off[j + 1]] == 0.5) for j in S)
+                        if not okm:
+                            ctx.issue("violation", "FusionART.join/split:mixed-dtypes:values-changed",
+                                      f"skip {Ssp}: first supplied channel of dtype {np.dtype(dt0).name}, the others float64: split(join(data)) "
+                                      f"does not return the supplied values (or the filler is not 0.5); joined dtype {np.asarray(Jm).dtype}",
+                                      dict(rp, first_channel_dtype=np.dtype(dt0).name))
+                        else:
+                            cov.hit(f"join-split-mixed-dtypes:{np.dtype(dt0).name}")
+                    except Exception as e:
+                        ctx.issue("violation", f"FusionART.join/split:mixed-dtypes:{exc_enum(e)}",
+                                  f"skip {Ssp}: first supplied channel of dtype {np.dtype(dt0).name}: raised {e!r}", rp)
                 if not floats and i % 3 == 0:
                     lines.append(f"fusion joinsplit {ints_str(dims)} {ints_str(Ssp)} {mat_q([d_[0] for d_ in data])} {vec_q(Q[0])}")
                     metas.append(("js", i, (J[0], [b[0] for b in f.split_channel_data(Q, skip_channels=list(Ssp))]), rp))
